@@ -113,10 +113,15 @@ static Vd flat(const VVd& v) { Vd r; for (auto& x : v) r.insert(r.end(), x.begin
 static void judgeQueries(vf::Case& c, Alg algk, HmmLikelihood& lk, const Model& m, const Ref& r, bool withDeriv) {
   std::string alg = ALGN[algk], cls = ALGC[algk], in = describe(m);
   double tol = tolLog(m, r);
+  // a library exception on these inputs is an answer the property does not allow: reported per clause (cheaper than letting it
+  // terminate the worker, same information)
+  auto raised = [&](const std::string& clause, const Exception& e) { c.fail(alg + "|" + clause + "|raised-exception", in + ": " + typeid(e).name() + ": " + e.what()); };
   // ---- posteriors
+  VVd pp; bool postOk = false;
+  try {
   c.site((cls + "::getHiddenStatesPosteriorProbabilities").c_str());
-  VVd pp; lk.getHiddenStatesPosteriorProbabilities(pp, false);
-  bool postOk = pp.size() == m.L;
+  lk.getHiddenStatesPosteriorProbabilities(pp, false);
+  postOk = pp.size() == m.L;
   if (!postOk) c.fail(alg + "|posterior|shape", in + ": " + str(pp.size()) + " rows");
   for (size_t i = 0; i < m.L && postOk; ++i) {
     if (pp[i].size() != m.n) { c.fail(alg + "|posterior|shape", in); postOk = false; break; }
@@ -150,8 +155,9 @@ static void judgeQueries(vf::Case& c, Alg algk, HmmLikelihood& lk, const Model& 
       if (!(std::fabs(one - (double)r.siteLik[i]) <= t2)) { c.fail(alg + "|site-likelihood|ForASite-value", in + ": site " + str(i) + " got " + num(one) + " expected " + num((double)r.siteLik[i])); break; }
     }
   }
+  } catch (Exception& e) { raised("posterior", e); postOk = false; }
   // ---- derivatives of getValue() = -logL with respect to theta
-  if (withDeriv) {
+  if (withDeriv) try {
     double L = (double)m.L, n = (double)m.n;
     double t1 = 1024. * L * L * n * n * EPS * std::max(1., std::fabs((double)r.d1)), t2 = 1024. * L * L * L * n * n * EPS * std::max(1., std::fabs((double)r.d2));
     c.site((cls + "::getFirstOrderDerivative").c_str());
@@ -177,6 +183,7 @@ static void judgeQueries(vf::Case& c, Alg algk, HmmLikelihood& lk, const Model& 
       }
     }
   }
+  catch (Exception& e) { raised("derivative", e); }
   // ---- queries are observers: the value and the posteriors are unchanged by them
   c.site((cls + "::getLogLikelihood(again)").c_str());
   double again = lk.getLogLikelihood();
